@@ -19,6 +19,7 @@ import MitmVerif.Model.C07
 import MitmVerif.Model.C07_Reader
 import MitmVerif.Model.C07_Exchange
 import MitmVerif.Lemmas.C01_Roundtrip
+import MitmVerif.Model.C07_Writer
 namespace MitmVerif.Props.C07
 open MitmVerif MitmVerif.C07
 
@@ -975,6 +976,207 @@ theorem writer_agrees_with_reader (v : Bytes) (b : Bool) (h : readsChunked v = s
 example : readsChunked [71, 90, 105, 112, 32, 44, 9, 32, 67, 104, 117, 110, 107, 101, 100] = some true := by decide +kernel
 example : readsChunked [103, 122, 105, 112] = some false := by decide +kernel
 example : readsChunked [99, 104, 117, 110, 107, 101, 100, 44, 32, 103, 122, 105, 112] = none := by decide +kernel
+
+/-! ### the peer's reader inverts the writer -/
+
+/-- all body bytes among the items -/
+def bodyItems : List Item → Bytes
+  | [] => []
+  | .byte b :: r => b :: bodyItems r
+  | _ :: r => bodyItems r
+
+private theorem bodyItems_append (a b : List Item) : bodyItems (a ++ b) = bodyItems a ++ bodyItems b := by
+  induction a with
+  | nil => rfl
+  | cons x xs ih => cases x <;> simp [bodyItems, ih]
+
+private theorem bodyItems_bytes (d : Bytes) : bodyItems (d.map Item.byte) = d := by
+  induction d with
+  | nil => rfl
+  | cons c cs ih => simp [bodyItems, ih]
+
+
+private theorem hex_facts : ∀ n : Fin 256, C01.Ref.isHex (UInt8.ofNat n.val) = true →
+    hexVal (UInt8.ofNat n.val) = some (C01.Ref.hexVal (UInt8.ofNat n.val)) ∧ UInt8.ofNat n.val ≠ 0x0d := by
+  decide +kernel
+
+private theorem hex_facts' (c : UInt8) (h : C01.Ref.isHex c = true) :
+    hexVal c = some (C01.Ref.hexVal c) ∧ c ≠ 0x0d := by
+  have := hex_facts ⟨c.toNat, UInt8.toNat_lt c⟩
+  simpa [h] using this
+
+/-- hex digits fed into a fresh-or-running size line only accumulate -/
+private theorem feed_size_digits (ds : Bytes) (hd : ds.all C01.Ref.isHex = true) (k v : Nat) (rest : Bytes)
+    (hk : k + ds.length ≤ 20) :
+    feed (.size { digits := k, value := v, mode := 0, bad := false, cr := false }) (ds ++ rest) =
+    feed (.size { digits := k + ds.length, value := ds.foldl C01.hexStep v, mode := 0, bad := false, cr := false }) rest := by
+  induction ds generalizing k v with
+  | nil => simp
+  | cons c cs ih =>
+    simp only [List.all_cons, Bool.and_eq_true] at hd
+    obtain ⟨h1, h2⟩ := hex_facts' c hd.1
+    have hk' : k + 1 + cs.length ≤ 20 := by simp only [List.length_cons] at hk; omega
+    have hnb : decide (k + 1 > 20) = false := by simp; omega
+    simp only [List.cons_append, feed, stepByte]
+    simp only [Bool.false_eq_true, false_and, if_false, h2, sizeContent, if_true, h1, hnb, Bool.or_false]
+    rw [List.nil_append]
+    have := ih hd.2 (k + 1) (v * 16 + C01.Ref.hexVal c) hk'
+    simp only [List.foldl_cons, C01.hexStep, List.length_cons]
+    rw [this, show k + 1 + cs.length = k + (cs.length + 1) by omega]
+
+/-- a complete chunk header `hexDigits n CRLF` (n > 0, at most 20 digits) puts the reader inside a chunk of n bytes -/
+private theorem feed_size_line (n : Nat) (hn : 0 < n) (h20 : (C01.hexDigits n).length ≤ 20) (rest : Bytes) :
+    feed (.size {}) (C01.hexDigits n ++ crlf ++ rest) = feed (.data n) rest := by
+  obtain ⟨hv, hall, hne⟩ := C01.hexDigits_spec n
+  rw [List.append_assoc]
+  have := feed_size_digits (C01.hexDigits n) hall 0 0 (crlf ++ rest) (by omega)
+  simp only [Nat.zero_add] at this
+  rw [show ({} : SizeLine) = { digits := 0, value := 0, mode := 0, bad := false, cr := false } from rfl, this]
+  have hval : (C01.hexDigits n).foldl C01.hexStep 0 = n := hv
+  have hlen : 0 < (C01.hexDigits n).length := List.length_pos_iff.mpr hne
+  rw [hval]
+  simp only [crlf, List.cons_append, List.nil_append, feed, stepByte, sizeContent]
+  have h1 : ¬ (C01.hexDigits n).length = 0 := by omega
+  have h2 : ¬ n = 0 := by omega
+  simp [h1, h2]
+
+/-- the last-chunk `0 CRLF CRLF` ends the message -/
+private theorem feed_last_chunk : feed (.size {}) [48, 13, 10, 13, 10] = (.stop, [.eom]) := by decide
+
+/-- inside a chunk: exactly its bytes, then the chunk boundary -/
+private theorem feed_data (d : Bytes) (hd : d ≠ []) (rest : Bytes) :
+    feed (.data d.length) (d ++ rest) =
+      ((feed (.dataEnd 0) rest).1, d.map Item.byte ++ [Item.cut] ++ (feed (.dataEnd 0) rest).2) := by
+  induction d with
+  | nil => exact absurd rfl hd
+  | cons c cs ih =>
+    by_cases hcs : cs = []
+    · subst hcs; simp [feed, stepByte]
+    · have hl : ¬ (cs.length + 1 ≤ 1) := by
+        have : 0 < cs.length := List.length_pos_iff.mpr hcs
+        omega
+      simp only [List.length_cons, List.cons_append, feed, stepByte, hl, if_false, Nat.add_sub_cancel]
+      rw [ih hcs]
+      simp
+
+private theorem feed_data_end (rest : Bytes) : feed (.dataEnd 0) (crlf ++ rest) = feed (.size {}) rest := by
+  simp [crlf, feed, stepByte]
+
+/-- chunks whose size line h11 accepts (1–20 hex digits; any body shorter than 16^20 bytes) -/
+def SizesOk (chunks : List Bytes) : Prop := ∀ c ∈ chunks, (C01.hexDigits c.length).length ≤ 20
+
+/-- the chunked framing of the data events, read back by the chunked reader -/
+private theorem read_frames (chunks : List Bytes) (hok : SizesOk chunks) :
+    (feed (.size {}) (chunks.flatMap (frameData true) ++ frameEnd true)).1 = .stop ∧
+    bodyItems (feed (.size {}) (chunks.flatMap (frameData true) ++ frameEnd true)).2 = chunks.flatten ∧
+    (feed (.size {}) (chunks.flatMap (frameData true) ++ frameEnd true)).2.getLast? = some Item.eom ∧
+    Item.err ∉ (feed (.size {}) (chunks.flatMap (frameData true) ++ frameEnd true)).2 ∧
+    Item.trailer ∉ (feed (.size {}) (chunks.flatMap (frameData true) ++ frameEnd true)).2 := by
+  induction chunks with
+  | nil => simp only [List.flatMap_nil, List.nil_append, frameEnd, if_true]; rw [feed_last_chunk]; simp [bodyItems]
+  | cons c cs ih =>
+    have hcs : SizesOk cs := fun x hx => hok x (by simp [hx])
+    obtain ⟨i1, i2, i3, i4, i5⟩ := ih hcs
+    by_cases hc : c = []
+    · subst hc
+      simpa [frameData] using ih hcs
+    · have hpos : 0 < c.length := List.length_pos_iff.mpr hc
+      have h20 := hok c (by simp)
+      simp only [List.flatMap_cons, frameData, hc, if_false, if_true, List.append_assoc]
+      rw [show C01.hexDigits c.length ++ (crlf ++ (c ++ (crlf ++ (cs.flatMap (frameData true) ++ frameEnd true)))) =
+            C01.hexDigits c.length ++ crlf ++ (c ++ (crlf ++ (cs.flatMap (frameData true) ++ frameEnd true))) by simp]
+      rw [feed_size_line c.length hpos h20, feed_data c hc, feed_data_end]
+      simp only [frameData] at i1 i2 i3 i4 i5 ⊢
+      refine ⟨i1, ?_, ?_, ?_, ?_⟩
+      · simp [bodyItems_append, bodyItems_bytes, bodyItems, i2]
+      · rw [List.getLast?_append, i3]; simp
+      · simp [i4]
+      · simp [i5]
+
+
+
+private theorem wireOf_append (c : Bool) (a b : List Out) : wireOf c (a ++ b) = wireOf c a ++ wireOf c b := by
+  induction a with
+  | nil => rfl
+  | cons x xs ih => cases x <;> simp [wireOf, ih, List.append_assoc]
+
+private theorem wireOf_data (c : Bool) (l : List Bytes) : wireOf c (l.map Out.sendData) = l.flatMap (frameData c) := by
+  induction l with
+  | nil => rfl
+  | cons x xs ih => simp [wireOf, ih]
+
+/-- **writer_identity_exact.** Without chunked framing the writers put the data events' bytes on the wire unchanged. -/
+theorem writer_identity_exact (chunks : List Bytes) :
+    wireOf false (chunks.map Out.sendData ++ [Out.sendEnd]) = chunks.flatten := by
+  have key : ∀ l : List Bytes, l.flatMap (frameData false) = l.flatten := by
+    intro l
+    induction l with
+    | nil => rfl
+    | cons c cs ih => by_cases hc : c = [] <;> simp [frameData, hc, ih]
+  rw [wireOf_append, wireOf_data, key]
+  simp [wireOf, frameEnd]
+
+/-- **reader_inverts_writer.** What the HTTP/1 writers put on the wire for a list of data events and the end of the
+    message under chunked framing is, for the chunked body reader, exactly one complete message: it ends in `stop` with
+    `eom` as the last item, raises no protocol error, meets no trailer, and its body bytes are the data events' bytes in
+    order (empty pieces write nothing).  `SizesOk`: every piece's size fits h11's 20 hex digits (< 16^20 bytes). -/
+theorem reader_inverts_writer (chunks : List Bytes) (hok : SizesOk chunks) :
+    (feed (.size {}) (wireOf true (chunks.map Out.sendData ++ [Out.sendEnd]))).1 = .stop ∧
+    bodyItems (feed (.size {}) (wireOf true (chunks.map Out.sendData ++ [Out.sendEnd]))).2 = chunks.flatten ∧
+    (feed (.size {}) (wireOf true (chunks.map Out.sendData ++ [Out.sendEnd]))).2.getLast? = some Item.eom ∧
+    Item.err ∉ (feed (.size {}) (wireOf true (chunks.map Out.sendData ++ [Out.sendEnd]))).2 ∧
+    Item.trailer ∉ (feed (.size {}) (wireOf true (chunks.map Out.sendData ++ [Out.sendEnd]))).2 := by
+  have e : wireOf true (chunks.map Out.sendData ++ [Out.sendEnd]) = chunks.flatMap (frameData true) ++ frameEnd true := by
+    rw [wireOf_append, wireOf_data]; simp [wireOf]
+  rw [e]
+  exact read_frames chunks hok
+
+/-- everything a flow in the stream state emits for `data* eom` is its data events, then the message hook and the end -/
+private theorem stream_outs_shape (st : St) (hp : st.phase = .stream) (chunks : List Bytes) :
+    (run o resp pol f st (chunks.map Ev.data ++ [Ev.eom])).2 =
+      (dataOf (run o resp pol f st (chunks.map Ev.data ++ [Ev.eom])).2).map Out.sendData ++ [Out.hookMsg, Out.sendEnd] := by
+  induction chunks generalizing st with
+  | nil =>
+    simp only [List.map_nil, List.nil_append, run, step, hp, relay, List.append_nil]
+    simp [dataOf_append, dataOf_map, dataOf]
+  | cons c cs ih =>
+    have hstep : step o resp pol f st (Ev.data c) =
+        ({ st with buf := if o.store then st.buf ++ (onData st.useF f c).flatten else st.buf },
+         (onData st.useF f c).map Out.sendData) := by
+      simp [step, hp, relay, onData]
+    have := ih { st with buf := if o.store then st.buf ++ (onData st.useF f c).flatten else st.buf } hp
+    simp only [List.map_cons, List.cons_append, run, hstep]
+    rw [this]
+    simp [dataOf_append, dataOf_map, dataOf, List.append_assoc]
+
+/-- **streamed_wire_exact.** End to end for a body streamed from the headers on, under chunked framing towards the peer:
+    the bytes the writers put on the wire for everything HttpStream emits are, for the peer's chunked reader, one complete
+    well-framed message whose body is exactly the transformed bytes `f` made of the received chunks (in order). -/
+theorem streamed_wire_exact (exp : ExpSize) (chunks : List Bytes)
+    (hs : (step o resp pol f init (.headers exp false)).1.phase = .stream)
+    (hok : SizesOk (dataOf (run o resp pol f (step o resp pol f init (.headers exp false)).1 (chunks.map Ev.data ++ [Ev.eom])).2)) :
+    let s1 := (step o resp pol f init (.headers exp false)).1
+    let r := run o resp pol f s1 (chunks.map Ev.data ++ [Ev.eom])
+    let rd := feed (.size {}) (wireOf true r.2)
+    rd.1 = .stop ∧ rd.2.getLast? = some Item.eom ∧ Item.err ∉ rd.2 ∧
+    bodyItems rd.2 = (if s1.useF then chunks.flatMap (fun c => normData (f c)) ++ normEnd (f []) else chunks).flatten := by
+  intro s1 r rd
+  have hshape := stream_outs_shape o resp pol f s1 hs chunks
+  have hex := (streamed_exact o resp pol f exp chunks hs).1
+  have hw : wireOf true r.2 = wireOf true ((dataOf r.2).map Out.sendData ++ [Out.sendEnd]) :=
+    (congrArg (wireOf true) hshape).trans (by simp [wireOf_append, wireOf] <;> rfl)
+  obtain ⟨a1, a2, a3, a4, _⟩ := reader_inverts_writer (dataOf r.2) hok
+  refine ⟨?_, ?_, ?_, ?_⟩
+  · show (feed (.size {}) (wireOf true r.2)).1 = _; rw [hw]; exact a1
+  · show (feed (.size {}) (wireOf true r.2)).2.getLast? = _; rw [hw]; exact a3
+  · show Item.err ∉ (feed (.size {}) (wireOf true r.2)).2; rw [hw]; exact a4
+  · show bodyItems (feed (.size {}) (wireOf true r.2)).2 = _; rw [hw, a2]
+    show (dataOf r.2).flatten = _
+    rw [show dataOf r.2 = _ from hex]
+
+example : SizesOk [[1, 2, 3], [], [4]] := by intro c hc; simp at hc; rcases hc with rfl | rfl | rfl <;> decide
+example : wireOf true ([[0x61, 0x62], [], [0x63]].map Out.sendData ++ [Out.sendEnd]) =
+    [0x32, 13, 10, 0x61, 0x62, 13, 10, 0x31, 13, 10, 0x63, 13, 10, 48, 13, 10, 13, 10] := by decide
 
 /-! ### parse_size -/
 
